@@ -170,7 +170,10 @@ def run_pair_validation(workdir, pairs, timeout=900, name="p"):
     of = os.path.join(workdir, name + ".out.ndjson")
     with open(tf, "w") as f:
         for t in pairs:
-            f.write(json.dumps({k: t[k] for k in ("pid", "prop", "a", "b")}) + "\n")
+            d = {k: t[k] for k in ("pid", "prop", "a", "b")}
+            for side in ("a", "b"):
+                d[side].setdefault("left", 0)
+            f.write(json.dumps(d) + "\n")
     if os.path.exists(of):
         os.remove(of)
     with open(os.path.join(workdir, "CiwPair.cfg"), "w") as f:
